@@ -13,13 +13,16 @@ CANARIES = [
      'old': "            except Exception:\n                ret = default_render_error(**error_params)",
      'new': "            except NameError:\n                ret = default_render_error(**error_params)"},
 ]
-OWN = [r'dispatch/ensures\[0\]', r'dispatch/raises', r'dispatch/loop.*/(init|preserve)\[[017]\]', r'dispatch/loop.*/post\[[08]\]']
+OWN = [r'dispatch/ensures\[0\]', r'dispatch/raises', r'dispatch/loop.*/(init|preserve)\[[017]\]', r'dispatch/loop.*/post\[[08]\]',
+       r'match_path/raises', r'render_error/raises', r'default_render_error/raises', r'^C08\.']
 QUICK_CANARIES = 2
 
 
 def build(pc, E, canary=None):
     pc.E = E
     pc.add_functions(E, TARGETS)
+    import contracts.route as R
+    R.dispatch_support(pc, E)
     if canary is not None:
         return
     unprintable(pc, E)
@@ -55,6 +58,19 @@ def unprintable(pc, E):
                     out = native('app_case.py', case, repo_root=E.repo.root)
                 except Exception as e:
                     pc.errors.append('bounded stand-in (unprintable messages) crashed: %r' % (e,))
+                    return
+                if out.get('fails'):
+                    bad.append({'case': case, 'why': out.get('why')})
+    for beh in ('ok_base', 'raise_http_odd', 'raise_http', 'return_http', 'nonresponse'):
+        for accept in (None, 'text/html', 'application/json', 'application/xml'):
+            for handler in ('default', 'debug'):
+                case = {'routes': [{'pattern': '/a', 'behavior': beh}], 'handler': handler,
+                        'request': {'path': '/a', 'accept': accept}, 'check': ['c08']}
+                n += 1
+                try:
+                    out = native('app_case.py', case, repo_root=E.repo.root)
+                except Exception as e:
+                    pc.errors.append('bounded stand-in (behaviours) crashed: %r' % (e,))
                     return
                 if out.get('fails'):
                     bad.append({'case': case, 'why': out.get('why')})
